@@ -17,7 +17,7 @@ type mutexMapEntry struct {
 	key interface{} // key in ma
 	m   *MutexMap   // point back to MutexMap, so we can synchronize removing this mutexMapEntry when cnt==0
 	el  sync.Mutex  // entry-specific lock
-	cnt uint16      // reference count
+	cnt int         // reference count (holder and waiters: duplicates of a request that is still inside its handler wait here, any number of them)
 }
 
 // Unlocker provides an Unlock method to release the lock.
